@@ -425,4 +425,25 @@ example : (lex "a{x,1}".toList, lex "a\nb".toList) =
 example : LexTotal.HasBadBound "a{x,1}".toList :=
   ⟨['a'], "{x,1}".toList, ['x'], ['1'], rfl, by decide, Or.inl ⟨by simp, by decide⟩⟩
 
+/-- The hypotheses of `C11_validate_from_regex_any` are met by a string outside the grammar:
+`(a|b` over `Σ = {a, b}` — validator and compiler both fail with `InvalidRegexError`.  (For a
+string that does not lex, such as `a{2,1}` above, the hypothesis on symbol tokens is void.) -/
+example : (∀ c ∈ ['a', 'b'], isReserved c = false) ∧
+    (∀ ts, lex "(a|b".toList = .ok ts → ∀ a, Tok.str [a] ∈ ts → a ∈ ['a', 'b']) ∧
+    Rx.validate "(a|b".toList = .error (.lib .invalidRegexError) ∧
+    (fromRegex "(a|b".toList (some ['a', 'b'])).toOption.isSome = false := by
+  refine ⟨by decide, ?_, by decide, by decide⟩
+  intro ts h
+  have : lex "(a|b".toList = .ok [.lparen, .str ['a'], .union, .str ['b']] := by decide
+  rw [this] at h
+  cases h
+  intro a ha
+  simp at ha
+  rcases ha with rfl | rfl <;> simp
+
+/-- … and the side condition of the default-alphabet version: `a|b*` yields no lone-brace
+symbol, `a{` does (then validate is ok while `from_regex` raises `InvalidSymbolError`). -/
+example : lex "a{".toList = .ok [.str ['a'], .str ['{']] ∧ Rx.validate "a{".toList = .ok () ∧
+    (fromRegex "a{".toList none).map (fun _ => ()) = .error (.lib .invalidSymbolError) := by decide
+
 end AV.Props.C11
